@@ -5,7 +5,8 @@ PROP = dict(
   level='other',
   strict_obligations=True,
   obligations=['he.initialize.all_free', 'lfrc.freelist.conserve', 'lfrc.freelist.push_links', 'stamp.dtor.hands_over_all', 'rlist.orphan.dtor.deletes_all', 'rlist.conserve',
-               'tbl.*', 'hpscan.active_hps.balanced', 'hpscan.dtor.releases_record', 'hpscan.skips_inactive', 'hpscan.dtor.hands_over_all',
+               'tbl.*', 'hpscan.active_hps.balanced', 'hpscan.adopt_before_gather',   # nodes abandoned by exited threads are adopted before the hazard pointers are gathered (round-4 seed C17-hp-scan-adopts-after-gather)
+                'hpscan.dtor.releases_record', 'hpscan.skips_inactive', 'hpscan.dtor.hands_over_all',
                'ebr.adopt.reinit', 'ebr.dtor.releases_record', 'ebr.dtor.hands_over_all', 'ebr.scan.exact', 'ebr.scan.prefix_valid', 'ebr.advance.after_scan', 'ebr.orphans.slot',
                'qsbr.adopt.reinit', 'qsbr.advance.all_quiescent', 'qsbr.dtor.hands_over_all', 'qsbr.dtor.releases_record', 'qsbr.orphans.target_epoch',
                'hp.initialize.all_free', 'hp.dynamic.initialize.relinks_all', 'hp.dynamic.alloc.distinct', 'hp.dynamic.need_more.never_throws'],
